@@ -145,3 +145,74 @@ Theorem C01_darrow_is_image :
     exists m, r = VSet m /\ ssorted m /\ forall y, In y m <-> exists x, In x l /\ clos_img fuel cenv p body x = Ok y.
 Proof. exact darrow_is_image. Qed.
 Print Assumptions C01_darrow_is_image.
+
+From Arrai Require Import Rep.DictRep Proofs.DictRepP.
+(* ---- the dictionary representation (rel/value_set_dict.go transcribed in Rep/DictRep.v: one value or a set of
+   several values per key) refines the set of (@: k, @value: v) pairs it denotes.  Invariant: distinct keys and every
+   several-values slot holds at least two different values. ---- *)
+
+(* With adds exactly that member, Without removes exactly that member (the last one leaves the empty set); both
+   preserve the invariant *)
+Theorem C01_dict_with_is_set_with :
+  forall d v, dict_ok d = true ->
+    res_ok (dict_with d v) /\ (forall y, In y (res_members (dict_with d v)) <-> y = v \/ In y (dict_enum d)) /\
+    mkset (res_members (dict_with d v)) = VSet (s_with (vsort (dict_enum d)) v).
+Proof. intros d v H. destruct (dict_with_spec d v H) as [A B]. split; [exact A | split; [exact B | apply dict_with_refines, H]]. Qed.
+Print Assumptions C01_dict_with_is_set_with.
+
+Theorem C01_dict_without_is_set_without :
+  forall d v, dict_ok d = true -> d <> [] ->
+    res_ok (dict_without d v) /\ (forall y, In y (res_members (dict_without d v)) <-> In y (dict_enum d) /\ y <> v) /\
+    mkset (res_members (dict_without d v)) = VSet (s_without (vsort (dict_enum d)) v).
+Proof. intros d v H N. destruct (dict_without_spec d v H N) as [A B]. split; [exact A | split; [exact B | apply dict_without_refines; assumption]]. Qed.
+Print Assumptions C01_dict_without_is_set_without.
+
+(* Has is membership; Count is the number of members and no member is enumerated twice *)
+Theorem C01_dict_has_is_membership : forall d v, dict_ok d = true -> (dict_has d v = true <-> In v (dict_enum d)).
+Proof. exact dict_has_spec. Qed.
+Print Assumptions C01_dict_has_is_membership.
+
+Theorem C01_dict_count_is_cardinality :
+  forall d, dict_ok d = true -> dict_count d = length (dict_enum d) /\ NoDup (dict_enum d).
+Proof. exact dict_count_spec. Qed.
+Print Assumptions C01_dict_count_is_cardinality.
+
+(* Where keeps exactly the members the predicate accepts; NewDict builds exactly the given entries *)
+Theorem C01_dict_where_is_comprehension :
+  forall d p, dict_ok d = true ->
+    res_ok (dict_where p d) /\ forall y, In y (res_members (dict_where p d)) <-> In y (dict_enum d) /\ p y = true.
+Proof. exact dict_where_spec. Qed.
+Print Assumptions C01_dict_where_is_comprehension.
+
+Theorem C01_new_dict_is_the_set_of_its_entries :
+  forall es, res_ok (new_dict true es) /\
+    forall y, In y (res_members (new_dict true es)) <-> In y (map (fun e => ventry (fst e) (snd e)) es).
+Proof. exact new_dict_spec. Qed.
+Print Assumptions C01_new_dict_is_the_set_of_its_entries.
+
+(* ... and so after ANY history of With / Without / Where: the representation meets its invariant and denotes
+   exactly what the same history computes on plain sets *)
+Theorem C01_dict_histories_compute_the_set_operations :
+  forall ops r, res_ok r -> in_dict r -> forallb op_in_dict ops = true ->
+    res_ok (fold_left dstep ops r) /\ in_dict (fold_left dstep ops r) /\
+    forall y, In y (res_members (fold_left dstep ops r)) <-> In y (fold_left sstep ops (res_members r)).
+Proof. exact dict_history. Qed.
+Print Assumptions C01_dict_histories_compute_the_set_operations.
+
+(* non-vacuity: a key goes from one value to several and back *)
+Example C01_dict_probe :
+  let e := fun k v => ventry (vint k) (vint v) in
+  let r := fold_left dstep [DWith (e 1 3); DWith (e 2 5); DWithout (e 1 2)] (new_dict true [(vint 1, vint 2)]) in
+  res_ok r /\ r = RDict [(vint 1, One (vint 3)); (vint 2, One (vint 5))].
+Proof. vm_compute. repeat split; discriminate. Qed.
+
+
+(* the set builder of rel/ (rel.NewSet, transcribed in Rep/Builder.v): a value is a member of the built set exactly when it
+   is the denotation of one of the members given - none dropped, none invented - for every member list in the well-formed
+   region and on which Equal is sound (see Properties/C02.v C02_builder_denotes_members for both hypotheses) *)
+From Arrai Require Import Rep.Builder Proofs.BuilderAllP Proofs.BuilderCorP.
+Theorem C01_set_builder_membership :
+  forall ms r, build ms = BOk r -> wf_members ms -> equal_sound_on ms ->
+    forall v, In v (set_elems (abs r)) <-> exists m, In m ms /\ v = abs m.
+Proof. exact set_builder_membership. Qed.
+Print Assumptions C01_set_builder_membership.
